@@ -77,3 +77,35 @@ Example C07_nonvacuous :
   merge_patch (merge_patch d p1) p2 = OObj [(B "a", OObj [(B "z", OStr (B "t"))]); (B "n", OStr (B "u")); (B "m", OObj [])] /\
   mm p1 p2 = OObj [(B "a", OObj [(B "x", ONull); (B "z", OStr (B "t")); (B "y", ONull)]); (B "n", OStr (B "u")); (B "k", ONull); (B "m", OObj [(B "q", ONull)])].
 Proof. vm_compute. repeat split; reflexivity. Qed.
+
+(* ---- the main theorems applied: every hypothesis of C07_mergemerge_refines_mm, C07_mergemerge_output_bytes
+   and C07_compose_law discharged on the texts of the compatible pair of C07_nonvacuous and a document ---- *)
+Definition C07_ex_p1 := B "{""a"":{""x"":null,""z"":[null]},""n"":0}".
+Definition C07_ex_p2 := B "{""a"":{""y"":null,""z"":""t""},""k"":null,""n"":""u"",""m"":{""q"":null}}".
+Definition C07_ex_doc := B "{""a"":{""x"":1,""y"":2},""k"":""s""}".
+Definition C07_ex_ms1 : list (bytes * tjson) := match parse C07_ex_p1 with Some (TObj ms) => ms | _ => [] end.
+Definition C07_ex_t2 : tjson := match parse C07_ex_p2 with Some t => t | None => TNull end.
+Definition C07_ex_td : tjson := match parse C07_ex_doc with Some t => t | None => TNull end.
+
+Example C07_main_theorem_applies :
+  (exists n, api_merge true C07_ex_p1 C07_ex_p2 = MOut (marshal_node n) /\ nwf n /\
+             aval n = mm (den (TObj C07_ex_ms1)) (den C07_ex_t2)) /\
+  (exists out t', api_merge true C07_ex_p1 C07_ex_p2 = MOut out /\ parse out = Some t' /\
+                  den t' = mm (den (TObj C07_ex_ms1)) (den C07_ex_t2) /\ valid_gen out = true) /\
+  jeq (merge_patch (den C07_ex_td) (mm (den (TObj C07_ex_ms1)) (den C07_ex_t2)))
+      (merge_patch (merge_patch (den C07_ex_td) (den (TObj C07_ex_ms1))) (den C07_ex_t2)) = true.
+Proof.
+  assert (P1 : parse C07_ex_p1 = Some (TObj C07_ex_ms1)) by (vm_compute; reflexivity).
+  assert (P2 : parse C07_ex_p2 = Some C07_ex_t2) by (vm_compute; reflexivity).
+  assert (N1 : tnodup (TObj C07_ex_ms1) = true) by (vm_compute; reflexivity).
+  assert (N2 : tnodup C07_ex_t2 = true) by (vm_compute; reflexivity).
+  assert (Nd : onodup (den C07_ex_td) = true) by (vm_compute; reflexivity).
+  assert (C : compatible (den (TObj C07_ex_ms1)) (den C07_ex_t2) = true) by (vm_compute; reflexivity).
+  split; [|split].
+  - destruct (C07_mergemerge_refines_mm C07_ex_p1 C07_ex_p2 C07_ex_ms1 C07_ex_t2 P1 P2 N1 N2 C) as [[S _] | [_ H]].
+    + vm_compute in S. discriminate S.
+    + exact H.
+  - exact (C07_mergemerge_output_bytes C07_ex_p1 C07_ex_p2 C07_ex_ms1 C07_ex_t2 P1 P2 N1 N2 C).
+  - exact (C07_compose_law (den C07_ex_td) (den (TObj C07_ex_ms1)) (den C07_ex_t2) Nd N1 N2 C).
+Qed.
+Print Assumptions C07_main_theorem_applies.
